@@ -194,6 +194,13 @@ def r4(ctx, prog):
     ctx.floor(R, 3)
 
 
+def r5(ctx, prog):
+    R = ctx.rule("C18.R5", "a forced purge is never skipped on an expiry hint: expiry-decided early returns of the arena purge drivers lie behind `!force`")
+    import shared
+    shared.forced_purge_not_skipped(ctx, R, prog)
+    ctx.floor(R, 3)
+
+
 def run(ctx):
     ctx.explanation = ("Static decision of C18's code-shaped necessary conditions: orientation agreement of the expiry tests of the three purge "
                        "drivers (edge-fact analysis over their CFGs), reachability of force=false purge attempts from ordinary free/alloc/collect "
@@ -202,7 +209,7 @@ def run(ctx):
     for c in (["REL"] if ctx.tier == "quick" else ["REL", "SEC", "DBG"]):
         prog = ctx.prog(c)
         n0 = len(ctx.instances)
-        r1(ctx, prog); r2(ctx, prog); r3(ctx, prog); r4(ctx, prog)
+        r1(ctx, prog); r2(ctx, prog); r3(ctx, prog); r4(ctx, prog); r5(ctx, prog)
         if c != "REL":
             for i in ctx.instances[n0:]:
                 i["site"] += " [%s]" % c
